@@ -277,6 +277,16 @@ def task_fn(task: tuple) -> dict:
     return part.out()
 
 
+def replay_case(raw: dict, part: Part) -> None:
+    backends.setup_determinism()
+    backends.sqlite_template()
+    run = Run(raw["config"], tuple(raw["prefix"]), tuple(tuple(p) for p in raw["programs"]))
+    ex = run.execute(Chooser(list(raw["schedule"])))
+    print("asks:", ex["got"], "final:", ex["final"])
+    for clause, detail in run.check(ex):
+        part.violation(clause, raw)
+
+
 def run(tier: str, replay: str | None = None) -> int:
     backends.setup_determinism()
     ctx = Ctx(PID, tier, "model_checking")
